@@ -628,6 +628,10 @@ BOUNDARY_KEYS = {
     "TSQL_NO_SEMICOLON": (True, "tsql", "SELECT a FROM t1\nSELECT b FROM t2", lambda lr: len(lr.statements()), 1, 2),
     "DEFAULT_SCHEMA": ("ovr", "ansi", "SELECT a FROM t1", lambda lr: str(lr.source_tables[0]), "<default>.t1", "ovr.t1"),
 }
+BOUNDARY_KEYS["DEFAULT_SCHEMA(legacy analyzer)"] = ("ovr", "non-validating", "SELECT a FROM t1", lambda lr: str(lr.source_tables[0]), "<default>.t1", "ovr.t1")
+# sequences of FRESH runners in one process: what an earlier analysis saw under its scope must not colour a later one
+SEQUENCE_SHAPES = ["analysis_in_scope_then_fresh_analysis_after_it", "analysis_in_scope_then_fresh_analysis_in_new_thread", "analysis_in_scope_A_then_in_scope_B_with_other_value",
+                   "analysis_without_scope_then_in_scope", "analysis_in_thread_scope_then_in_main_thread"]
 BOUNDARY_SHAPES = ["built_in_scope_evaluated_after_normal_exit", "built_in_scope_evaluated_after_exception_exit", "built_in_scope_of_thread_A_evaluated_in_thread_B",
                    "built_before_scope_evaluated_inside", "built_and_evaluated_inside", "built_in_thread_A_scope_evaluated_in_thread_B_own_scope"]
 
@@ -639,6 +643,8 @@ def _boundary_child(key, shape):
     from sqllineage.runner import LineageRunner
 
     val, dialect, sql, observe_, plain, overridden = BOUNDARY_KEYS[key]
+    skey = key
+    key = key.split("(")[0]
     mk = lambda: LineageRunner(sql, dialect=dialect)  # noqa: E731
     box = {}
 
@@ -675,14 +681,43 @@ def _boundary_child(key, shape):
         elif shape == "built_and_evaluated_inside":
             with SQLLineageConfig(**{key: val}):
                 got, want = observe_(mk()), overridden
+        elif shape in SEQUENCE_SHAPES:
+            cfgkey = key.split("(")[0]
+            other = (False, plain) if isinstance(val, bool) else ("oth", overridden.replace("ovr", "oth"))
+            if shape == "analysis_in_scope_then_fresh_analysis_after_it":
+                with SQLLineageConfig(**{cfgkey: val}):
+                    first = observe_(mk())
+                got, want = [first, observe_(mk())], [overridden, plain]
+            elif shape == "analysis_in_scope_then_fresh_analysis_in_new_thread":
+                with SQLLineageConfig(**{cfgkey: val}):
+                    first = observe_(mk())
+                    got, want = [first, in_thread(lambda: observe_(mk()))], [overridden, plain]
+            elif shape == "analysis_in_scope_A_then_in_scope_B_with_other_value":
+                with SQLLineageConfig(**{cfgkey: val}):
+                    first = observe_(mk())
+                with SQLLineageConfig(**{cfgkey: other[0]}):
+                    second = observe_(mk())
+                got, want = [first, second], [overridden, other[1]]
+            elif shape == "analysis_without_scope_then_in_scope":
+                first = observe_(mk())
+                with SQLLineageConfig(**{cfgkey: val}):
+                    second = observe_(mk())
+                got, want = [first, second], [plain, overridden]
+            else:
+                def a():
+                    with SQLLineageConfig(**{cfgkey: val}):
+                        return observe_(mk())
+                first = in_thread(a)
+                got, want = [first, observe_(mk())], [overridden, plain]
         else:
             def b():
                 with SQLLineageConfig(**{key: val}):
                     return observe_(lr)
-            lr = in_thread(mk) if False else mk()
+            lr = mk()
             got, want = in_thread(b), overridden
     if got != want:
-        return {"what": "a runner carried the configuration across a scope / thread boundary", "key": key, "shape": shape, "observed": got, "expected": want}
+        return {"what": "a runner carried the configuration across a scope / thread boundary" if shape not in SEQUENCE_SHAPES else
+                "an earlier analysis under a scope coloured a later one", "key": skey, "shape": shape, "observed": got, "expected": want}
     return None
 
 
@@ -691,7 +726,7 @@ def _boundary_stream(ctx):
 
     res = runner.Res()
     for key in BOUNDARY_KEYS:
-        for shape in BOUNDARY_SHAPES:
+        for shape in BOUNDARY_SHAPES + SEQUENCE_SHAPES:
             c = {"boundary": [key, shape]}
             res.case(("boundary", key, shape), True, labels=["boundary", "boundary_key:" + key], sample=c)
             v = C12.in_child(_boundary_child, key, shape)
